@@ -230,15 +230,24 @@ func (f *FS) event(op, p string) (*IOEvent, *Fault) {
 			if op == "home" || op == "getwd" || op == "environ" || op == "abs" || op == "abs-rel" {
 				continue
 			}
-			if ft.armed && ft.Sticky {
-				match = ft.Path == p || strings.HasPrefix(p, ft.Path+"/")
-			} else if ft.AtSeq > 0 {
-				match = seq == ft.AtSeq && (ft.Path == "" || ft.Path == p)
+			exact := ft.Path == p
+			under := strings.HasPrefix(p, ft.Path+"/") && (ft.Kind == "enoent" || ft.Kind == "eacces" || ft.Kind == "eio")
+			switch {
+			case ft.Sticky && ft.AtSeq > 0: // from this event on ("vanished between two accesses and stays gone")
+				if ft.Path == "" && seq == ft.AtSeq {
+					ft.Path = p
+					exact = true
+				}
+				match = seq >= ft.AtSeq && ft.Path != "" && (exact || under)
+			case ft.Sticky:
+				match = exact || under
+			case ft.AtSeq > 0: // this event only
+				match = seq == ft.AtSeq && (ft.Path == "" || exact)
 				if match && ft.Path == "" {
 					ft.Path = p
 				}
-			} else if !ft.armed || ft.Sticky {
-				match = ft.Path == p || (ft.Kind == "enoent" && strings.HasPrefix(p, ft.Path+"/"))
+			default: // first access only
+				match = (exact || under) && !ft.armed
 			}
 		}
 		if match {
